@@ -449,8 +449,8 @@ func Run(o *hx.Out, g *hx.Rng, tier string) {
 	}
 	if tier == "thorough" {
 		// (head offset, fill) at capacity 8; {3,5}: tail == 0; {5,7}: full, the next push grows
-		exhaustive(o, 5, [][2]int{{0, 0}, {6, 3}, {7, 6}, {5, 7}, {3, 5}})
-		exhaustive(o, 6, [][2]int{{7, 6}, {3, 5}})
+		// (every shorter sequence is a prefix of these and is checked op by op on the way)
+		exhaustive(o, 6, [][2]int{{0, 0}, {6, 3}, {7, 6}, {5, 7}, {3, 5}})
 	}
 	// growth chains 8 -> 2048+ (cross the doubling and the +10% regimes) from wrapped layouts
 	chains := [][3]int{{8, 5, 2600}}
